@@ -117,7 +117,7 @@ func allOptSets() []optSet {
 	for _, file := range []string{"", "cf"} {
 		for _, ext := range []string{"", ".txt"} {
 			for ui, upd := range []*bool{nil, &t, &f} {
-				for ji, js := range []*snaps.JSONConfig{nil, {Width: 20, Indent: "\t", SortKeys: false}, {Width: 60, Indent: " ", SortKeys: true}} {
+				for ji, js := range []*snaps.JSONConfig{nil, {Width: 20, Indent: "\t", SortKeys: false}, {Width: 60, Indent: " ", SortKeys: true}, {Width: 20, Indent: " ", SortKeys: true}} {
 					for _, sub := range []string{"", "nested/dir", "rate 50%off"} {
 						out = append(out, optSet{Name: fmt.Sprintf("file=%q ext=%q upd=%d json=%d sub=%q", file, ext, ui, ji, sub), File: file, Ext: ext, Upd: upd, JSON: js, Sub: sub})
 					}
@@ -284,7 +284,7 @@ func keysOfBool(m map[string]bool) []string {
 }
 
 func checkC12(c *vkit.Ctx) {
-	c.P.Rule = "case = (option set, sequence of 1..4 entry points) - ALL 780 sequences over the five Match* entry points x 108 option sets (Filename x Ext x Update x JSON x nested Dir); each sequence is executed twice in fresh directories: through one shared Config and through a freshly built identical Config per call; oracle: reflection fingerprint of the Config (and of an unrelated Config and of WithConfig()) before/after every call, and equality of created relative paths, file bytes and outcomes between the two executions; plus sampled sequences in which the calls of one test come from two different _test.go files (default file name = the calling file's, per call) sampled re-entrant calls (a Custom callback of a call through one Config snapshots through another Config with other JSON options), and sampled sequences through a Config and a by-value copy of it with another Filename (taken before, between or after calls through the original); non-trivial = sequence of length >= 2 (an earlier call can influence a later one); distinct by (option set, sequence); thorough adds concurrent mixes through one Config under the race detector"
+	c.P.Rule = "case = (option set, sequence of 1..4 entry points) - ALL 780 sequences over the five Match* entry points x 144 option sets (Filename x Ext x Update x JSON x nested Dir); each sequence is executed twice in fresh directories: through one shared Config and through a freshly built identical Config per call; oracle: reflection fingerprint of the Config (and of an unrelated Config and of WithConfig()) before/after every call, and equality of created relative paths, file bytes and outcomes between the two executions; plus sampled sequences in which the calls of one test come from two different _test.go files (default file name = the calling file's, per call) sampled re-entrant calls (a Custom callback of a call through one Config snapshots through another Config with other JSON options), and sampled sequences through a Config and a by-value copy of it with another Filename (taken before, between or after calls through the original); non-trivial = sequence of length >= 2 (an earlier call can influence a later one); distinct by (option set, sequence); thorough adds concurrent mixes through one Config under the race detector"
 	sets := allOptSets()
 	var seqs [][]string
 	var rec func(pre []string, n int)
@@ -547,7 +547,7 @@ func checkC12(c *vkit.Ctx) {
 		c.P.Exhaustive = map[string]bool{}
 	}
 	if os.Getenv("VERIF_RACE_BUILD") != "1" {
-		c.P.Exhaustive["sequences<=4_x_108_option_sets"] = c.OnlyCase < 0
+		c.P.Exhaustive["sequences<=4_x_144_option_sets"] = c.OnlyCase < 0
 	}
 	if c.P.Shard == 0 {
 		c.Count("option_sets", len(sets))
